@@ -15,6 +15,25 @@ from sim.scn_c12 import SALTS, call_planner
 SWEEP_EVERY = 8
 
 
+FOCUS_FILES = [
+    "form.py",
+    "integral.py",
+    "measure.py",
+    "exprequals.py",
+    "core/compute_expr_hash.py",
+    "algorithms/signature.py",
+    "algorithms/compute_form_data.py",
+    "algorithms/domain_analysis.py",
+    "algorithms/formdata.py",
+    "algorithms/apply_integral_scaling.py",
+    "algorithms/analysis.py",
+    "algorithms/renumbering.py",
+    "formoperators.py",
+    "algorithms/formtransformations.py",
+    "utils/sorting.py",
+]
+
+
 class C27(Scenario):
     pid = "C27"
     arms = {
@@ -52,12 +71,16 @@ class C27(Scenario):
             if i in step_of:
                 si, inputs = step_of[i]
                 u = {"k": "alg", "n": 0, "op": op, "step": si, "inputs": inputs}
-                if arm in ("interrupts", "stack", "untorn-off", "long") and op[0] in ("call", "meth", "roundtrip", "cmp", "inset") and rng.random() < (0.35 if arm != "long" else 0.15):
+                if arm in ("interrupts", "stack", "untorn-off", "long") and op[0] in ("call", "meth", "roundtrip", "cmp", "inset", "obs") and rng.random() < (0.35 if arm != "long" else 0.15):
                     if arm == "stack" or (arm == "long" and rng.random() < 0.3):
                         u["op"] = ["fault", "stack", int(10 ** rng.uniform(0.5, 2.5)), op]
                     else:
                         n = int(10 ** rng.uniform(0, 5.3))
-                        u["op"] = ["fault", rng.choice(["interrupt", "interrupt", "memerr"]), {"n": n, "defer": arm != "untorn-off"}, op]
+                        par = {"n": n, "defer": arm != "untorn-off"}
+                        if rng.random() < 0.35:
+                            # file-focused: the n-th line event inside one state-carrying module
+                            par = {"n": int(10 ** rng.uniform(0, 2.5)), "defer": arm != "untorn-off", "files": [rng.choice(FOCUS_FILES)]}
+                        u["op"] = ["fault", rng.choice(["interrupt", "interrupt", "memerr"]), par, op]
                 units.append(u)
             else:
                 units.append({"k": "setup", "n": 0, "op": op})
